@@ -33,24 +33,29 @@ from ..core import Ctx, load_corpus
 
 ID = "C17"
 LEVEL = "proof"
+STRENGTH = "partial"      # the mirror clause (exact) and the gate clause (every kind) are proved under named guards: F1, F4
 ENGINES = ["lean-model", "purediff", "kopfsim"]
 LEVEL_TEXT = (
-    "Lean theorems for all event lists / all label interleavings. Index: no KeyError inside the index (run_total), "
-    "forward/reverse consistency, no empty collections and key uniqueness of all three dicts as invariants, "
-    "index = groupBy(documented reference) up to Python equality (mirror_upto_pyeq; exact under a lawful == as "
-    "mirror_partial; the exact statement is refuted for Python's == by mirror_witness = finding F1), the keep/remove "
-    "table incl. the retries=/timeout= budget. Gate: safety for every interleaving with any number of "
-    "spawn_missing_watchers batches (gate_safe for the start-up batch, pass_safe/detach_safe for every kind spawned "
-    "so far); beyond the property (liveness is not part of C17): gate_can_open_partial (the gate can open from every "
-    "reachable state in which no indexing cycle ended without drop_toggle) with gate_stuck_witness for the raising "
-    "path (an observation, not a finding: proposals/fix-C17F3); three broken variants refuted. Tied to the "
-    "code by differential runs of the real process_resource_event/indexers (D) and by trace acceptance of real "
-    "watcher/worker/ToggleSet start-ups incl. a second batch under virtual time (A). The retry/exclusion half of the "
+    "Lean theorems for all event lists / all label interleavings. INDEX clause: no KeyError inside the index "
+    "(run_total), forward/reverse consistency, no empty collections, key uniqueness of all three dicts as invariants; "
+    "index = groupBy(documented reference) up to Python equality with provenance (mirror_upto_pyeq, unguarded); the "
+    "EXACT mirror only under the history guard NoTwins (mirror_partial; sufficient, not exact) because the clause is "
+    "false of the code for Python's == (mirror_witness = finding F1); the keep/remove table incl. the retries=/timeout= "
+    "budget. GATE clause: safety for every interleaving with any number of spawn_missing_watchers batches incl. the "
+    "empty first batch of a namespaced start-up, watcher deaths and respawns: gate_safe for the START-UP kinds (those "
+    "of the batches begun before anybody saw the set on: in both real start-ups every kind of the first non-empty "
+    "batch), pass_safe/detach_safe for every kind spawned so far; the unrestricted 'every indexed kind' is false of "
+    "the code by design for kinds discovered later (late_kind_witness = finding F4). Beyond the property (liveness, "
+    "observations only): gate_can_open_partial (from every reachable Healthy state), gate_stuck_of_leak and two "
+    "reachable stuck states (failed indexing cycle + idle exit; watcher ended before LISTED). Three broken variants of "
+    "the LTS refuted (about mutants, not the code). Tied to the code by differential runs of the real "
+    "process_resource_event/indexers (D) and by trace acceptance of real adjust_tasks/spawn_missing_watchers/watcher/"
+    "worker/ToggleSet start-ups — cluster-wide and namespaced — under virtual time (A). The retry/exclusion half of the "
     "Lean reference shares exhausted/lookahead/awake with the model (definitional there); it is checked independently "
     "only by the Python oracle.")
 TIE = ("D: real process_resource_event + OperatorIndexers vs Lean model after every event (views in dict order, "
-       "retry memory incl. started); A: real spawn_missing_watchers (1-2 batches)/watcher/worker/ToggleSet traces "
-       "accepted by the Lean LTS")
+       "retry memory incl. started); A: real orchestration.adjust_tasks (empty first batch in namespaced mode, later "
+       "revisions, redundant/dead watchers)/watcher/worker/ToggleSet traces accepted by the Lean LTS")
 THEOREMS = [
     ("Kopf.Props.C17", "Kopf.C17.run_total"),
     ("Kopf.Props.C17", "Kopf.C17.fwd_rev_consistent"),
@@ -60,6 +65,7 @@ THEOREMS = [
     ("Kopf.Props.C17", "Kopf.C17.mirror_partial"),
     ("Kopf.Props.C17", "Kopf.C17.mirror_witness"),
     ("Kopf.Props.C17", "Kopf.C17.mirror_exclusions"),
+    ("Kopf.Props.C17", "Kopf.C17.others_untouched"),
     ("Kopf.Props.C17", "Kopf.C17.deleted_discards"),
     ("Kopf.Props.C17", "Kopf.C17.mismatch_discards"),
     ("Kopf.Props.C17", "Kopf.C17.excluded_stays_out"),
@@ -70,11 +76,14 @@ THEOREMS = [
     ("Kopf.Props.C17", "Kopf.C17.dict_replaces"),
     ("Kopf.Props.C17", "Kopf.C17.scalar_under_none_key"),
     ("Kopf.Props.C17", "Kopf.C17.Gate.gate_safe"),
+    ("Kopf.Props.C17", "Kopf.C17.Gate.late_kind_witness"),
     ("Kopf.Props.C17", "Kopf.C17.Gate.pass_safe"),
     ("Kopf.Props.C17", "Kopf.C17.Gate.detach_safe"),
     ("Kopf.Props.C17", "Kopf.C17.Gate.ungated_only_after_ready"),
     ("Kopf.Props.C17", "Kopf.C17.Gate.gate_can_open_partial"),
+    ("Kopf.Props.C17", "Kopf.C17.Gate.gate_stuck_of_leak"),
     ("Kopf.Props.C17", "Kopf.C17.Gate.gate_stuck_witness"),
+    ("Kopf.Props.C17", "Kopf.C17.Gate.gate_stuck_dead_watcher_witness"),
     ("Kopf.Props.C17", "Kopf.C17.Gate.noBlocker_witness"),
     ("Kopf.Props.C17", "Kopf.C17.Gate.noKindToggle_witness"),
     ("Kopf.Props.C17", "Kopf.C17.Gate.dropBeforeIndex_witness"),
@@ -82,30 +91,40 @@ THEOREMS = [
 RULE = ("index: 1-3 @kopf.index handlers (resource x label filter x errors mode x retries x backoff x timeout) over 1-3 "
         "kinds, 1-4 objects incl. delete-and-recreate, 1-14 events with times placed on/around retry and timeout "
         "deadlines; per event and handler a scripted result (dict with 0-2 keys from a colliding alphabet incl. None, "
-        "scalar incl. falsy and bool/int twins, None, TemporaryError(delay), PermanentError, arbitrary exception); a case "
-        "is distinct by its sequence of (event type, per-handler rule applied) and non-trivial when it hits a non-set "
-        "rule, a key collision or a re-keying. gate: 2-3 indexed kinds (+ plain), optionally a kind discovered later "
-        "(second spawn_missing_watchers call), 0-3 listed objects each, staggered dyadic delays with ties, slow index "
-        "functions, re-listing, suspended make_toggle (per kind and per object), short idle timeouts; distinct by the "
+        "scalar incl. falsy and bool/int twins, a non-dict Mapping (kopf.Memo), None, TemporaryError(delay), "
+        "PermanentError, arbitrary exception); a case is distinct by its sequence of (event type, per-handler rule "
+        "applied) and non-trivial when it hits a non-set rule, a key collision or a re-keying. gate: a start-up through "
+        "the real adjust_tasks, cluster-wide (2-3 resources + plain, one batch) or namespaced (1-2 resources x 1-2 "
+        "namespaces; the first batch is empty), optionally later revisions (a resource / a namespace discovered later, a "
+        "namespace deleted during the listing, a plain revision that respawns dead watchers), watchers whose listing "
+        "answers 404, 0-3 listed objects each, staggered dyadic delays with ties, slow index functions, re-listing, "
+        "raising when= filters, suspended make_toggle (per kind and per object), short idle timeouts; distinct by the "
         "label sequence.")
 TRUSTED = [
     "abstraction of results to script kinds (isinstance Mapping / None / exception class) and of bodies to (kind, ns/name/uid, label)",
     "label instrumentation: ToggleSet subclass + module-attribute wrappers of queueing.watcher/worker, indexing.index_resource, "
-    "the processor and a scripted watching.infinite_watch (no source hooks)",
-    "index values are JSON data without floats; object uids are unique across kinds (as in Kubernetes)",
+    "the processor and a scripted watching.infinite_watch (no source hooks); orchestration.adjust_tasks is called directly "
+    "with a real Insights object (the orchestrator's own loop and its task monitoring are C19/C20's subject)",
+    "index values are JSON data without floats, index keys are strings or None; object uids are unique across kinds (as in Kubernetes)",
     "events are modelled one after another: OperatorIndexers.replace/discard are synchronous and touch only the event's own "
-    "object key (Lemmas others_untouched), so concurrent workers of different objects commute on the indices",
+    "object key (theorem others_untouched), so concurrent workers of different objects commute on the indices",
 ]
 ASSUMPTIONS = [
-    "timeout= and delays are whole seconds of the loop clock, loop time does not run backwards",
-    "handler ids are distinct; filters other than one label filter are C15's subject",
+    "timeout= and delays are whole seconds of the loop clock, loop time does not run backwards; index functions of the D "
+    "tie return at once (the model stamps `started` and `delayed` with the event's time; a slow index function shifts "
+    "`delayed` and the timeout arithmetic by its duration) — modelling limit, not unreachable",
+    "handler ids are distinct; filters other than one label filter are C15's subject; sub-handlers of index functions are not modelled",
+    "the D tie runs process_resource_event with no_throttling=True (so that an escaping error is seen, not swallowed): a "
+    "cycle skipped by the error throttler is not indexed at all — 'after processing any event' is about processed "
+    "events; the latest event is processed after the throttle (bounded by error_delays)",
+    "'objects seen so far' = events delivered: a deletion the watch never delivers (re-list after 410/pause; open "
+    "finding C19-F5) leaves the object's values in the index for good — the index mirrors the event stream, not the cluster",
     "the exclusion/retry table of the Lean reference (awake, exhausted, lookahead) is shared with the model: mirror_* are "
     "decomposition theorems for the index bookkeeping and definitional for that table; a misreading of awakened/look-ahead "
     "would be caught by the D tie (real memory incl. retries/delayed/failure/started) and by the Python oracle only",
-    "gate: a watcher that died and is respawned under the same kind (kopf 9ef1bcb) is not modelled; whether the gate "
-    "ever opens is liveness and NOT checked by the oracle (C17 is safety): gate_can_open_partial is a possibility "
-    "statement under the guard that no indexing cycle failed; the failing path (indexFail label, leaked toggle) is "
-    "modelled, tied (corpus F3_gate_toggle_leak + 6% of generated start-ups) and shown stuck by gate_stuck_witness",
+    "whether the gate ever opens is liveness and NOT checked by the oracle (C17's gate clause is safety): the failing "
+    "indexing cycle and the dying watcher are modelled (indexFail, die, leaked toggles), tied (corpus F3_*, N1_* and "
+    "~6%/~12% of generated start-ups) and proved stuck (gate_stuck_of_leak)",
     "daemons/timers/change handlers are behind the same single wait_for(True) as @kopf.on.event handlers, which are what the gate runs observe",
 ]
 
@@ -152,8 +171,10 @@ def gen_script(rng: random.Random) -> list:
         n = rng.choice([0, 1, 1, 1, 2, 2])
         keys = rng.sample(KEYS, n)
         return ["dict", [[k, rng.choice(VALUES)] for k in keys]]
-    if r < 0.52:
+    if r < 0.51:
         return ["scalar", rng.choice(SCALARS)]
+    if r < 0.52:
+        return ["memo", [[rng.choice(["k1", "k2"]), rng.choice([1, "a", 7])]]]     # a non-dict Mapping (finding F2)
     if r < 0.66:
         return ["none"]
     if r < 0.80:
@@ -344,6 +365,26 @@ async def run_index_case(case: dict) -> dict:
 
 # ---- the oracle: a dictionary reference model written from docs/indexing.rst --------------------
 def oracle_index(case: dict, obs: dict) -> list[tuple[str, dict, dict]]:
+    """The documented rules; a failure is attributed to F2 only when it vanishes once a non-dict Mapping
+    is read the way the code reads it (and to F1 only when the views are equal up to Python's ==)."""
+    fails = _oracle_index(case, obs, memo_as_dict=False)
+    if fails and _memo_seen(case, len(case["events"])):
+        alt = {(f[1].get("event"), f[1].get("index")): f[2] for f in _oracle_index(case, obs, memo_as_dict=True)}
+
+        def attribute(d: dict, sg: dict) -> dict:
+            if sg.get("site") != "index-content":
+                return sg
+            other = alt.get((d.get("event"), d.get("index")))
+            if other is None:
+                return F2_SIG                   # gone once the Mapping is read as the code reads it
+            if other == F1_SIG:
+                return F1_SIG                   # F2 and F1 together: what remains is only the ==-twin
+            return sg
+        fails = [(w, d, attribute(d, sg)) for (w, d, sg) in fails]
+    return fails
+
+
+def _oracle_index(case: dict, obs: dict, memo_as_dict: bool) -> list[tuple[str, dict, dict]]:
     """Returns failures as (what, detail, signature). Reads only the documented rules and the
     implementation-level observations (views, call log, escaped errors)."""
     fails: list[tuple[str, dict, dict]] = []
@@ -386,6 +427,9 @@ def oracle_index(case: dict, obs: dict) -> list[tuple[str, dict, dict]]:
             kind = s[0]
             mode = ix["errors"] or "ignored"    # "errors=IGNORED (the default)"
             if kind == "dict":
+                vals[p] = {canon(k): (k, v) for k, v in s[1]}
+                excl.pop(p, None); fails_in_row.pop(p, None); first_fail.pop(p, None)
+            elif kind == "memo" and memo_as_dict:   # (attribution run only: the code's reading)
                 vals[p] = {canon(k): (k, v) for k, v in s[1]}
                 excl.pop(p, None); fails_in_row.pop(p, None); first_fail.pop(p, None)
             elif kind == "memo":                # "strictly dict — not … even a subclass of dict, such as kopf.Memo"
@@ -440,8 +484,6 @@ def oracle_index(case: dict, obs: dict) -> list[tuple[str, dict, dict]]:
                 sig = {"site": "index-content", "shape": "index differs from the documented reference"}
                 if _equal_up_to_python_eq(want, got):
                     sig = F1_SIG
-                elif any(s[0] == "memo" for s in e["script"].values()) or _memo_seen(case, n):
-                    sig = F2_SIG
                 fails.append((f"event #{n}: index {iid} is {got}, the documented rules give {want}",
                               {"event": n, "index": iid, "got": got, "want": want}, sig))
     return fails
@@ -514,60 +556,89 @@ def classify_index_case(case: dict, obs: dict) -> tuple[str, bool, dict]:
 # part A — the start-up gate
 # =================================================================================================
 DELAYS = [0, 0, 1 / 64, 1 / 64, 1 / 32, 1 / 16, 1 / 4, 1 / 4, 1.0]
+F4_SIG = {"site": "queueing.watcher", "shape": "a watcher that has seen the gate open never gates again: "
+                                                "an indexed kind discovered later is not awaited"}
+
+
+def _wname(res: str, ns: str | None) -> str:
+    return f"{res}@{ns}"
+
+
+def _gen_stream(rng: random.Random, w: str, index_delay: dict, counter: list, *, allow_die: bool) -> list:
+    items: list[dict] = []
+    listed_objs: list[str] = []
+    for _ in range(rng.choice([0, 1, 1, 2, 3])):
+        counter[0] += 1
+        u = f"{w}-{counter[0]}"
+        listed_objs.append(u)
+        items.append({"delay": rng.choice(DELAYS), "type": None, "uid": u})
+        index_delay[u] = rng.choice(DELAYS)
+    if allow_die and rng.random() < 0.5:
+        items.append({"delay": rng.choice(DELAYS), "die": 404})       # the listing fails for good: 404
+        return items
+    items.append({"delay": rng.choice(DELAYS), "listed": True})
+    for _ in range(rng.choice([0, 0, 1, 2, 3])):
+        if listed_objs and rng.random() < 0.5:
+            items.append({"delay": rng.choice(DELAYS), "type": rng.choice(["MODIFIED", "MODIFIED", "DELETED"]),
+                          "uid": rng.choice(listed_objs)})
+        else:
+            counter[0] += 1
+            u = f"{w}-{counter[0]}"
+            listed_objs.append(u)
+            index_delay[u] = rng.choice(DELAYS)
+            items.append({"delay": rng.choice(DELAYS), "type": "ADDED", "uid": u})
+    if rng.random() < 0.2:              # the watch is restarted (410 Gone): listing again, LISTED again
+        for u in listed_objs[:2]:
+            items.append({"delay": rng.choice(DELAYS), "type": None, "uid": u})
+        items.append({"delay": rng.choice(DELAYS), "listed": True})
+    if allow_die and rng.random() < 0.3:
+        items.append({"delay": rng.choice(DELAYS), "die": 404})       # the kind vanishes later
+    return items
 
 
 def gen_gate_case(rng: random.Random) -> dict:
-    n_ind = rng.choice([2, 2, 3])
-    kinds = [{"name": KINDS[i], "indexed": True} for i in range(n_ind)]
-    if n_ind < 3 and rng.random() < 0.5:
-        kinds.append({"name": KINDS[n_ind], "indexed": False})
-    rng.shuffle(kinds)
-    streams: dict[str, list] = {}
+    """A start-up as the real orchestrator sees it: `mode` cluster = one revision with namespaces {None};
+    namespaced = a first revision WITHOUT namespaces (empty batch), then the namespaces."""
+    mode = rng.choice(["cluster", "namespaced", "namespaced"])
+    n_res = rng.choice([2, 2, 3]) if mode == "cluster" else rng.choice([1, 2])
+    resources = [{"name": KINDS[i], "indexed": True} for i in range(n_res)]
+    if mode == "cluster" and n_res < 3 and rng.random() < 0.5:
+        resources.append({"name": KINDS[n_res], "indexed": False})
+    if mode == "namespaced" and n_res == 2 and rng.random() < 0.3:
+        resources[1]["indexed"] = False
+    rng.shuffle(resources)
+    namespaces = [None] if mode == "cluster" else rng.choice([["ns1"], ["ns1", "ns2"], ["ns1", "ns2"]])
     index_delay: dict[str, float] = {}
-    uid = 0
-    for k in kinds:
-        items: list[dict] = []
-        listed_objs = []
-        for _ in range(rng.choice([0, 1, 1, 2, 3])):
-            uid += 1
-            u = f"{k['name']}-{uid}"
-            listed_objs.append(u)
-            items.append({"delay": rng.choice(DELAYS), "type": None, "uid": u})
-            index_delay[u] = rng.choice(DELAYS)
-        items.append({"delay": rng.choice(DELAYS), "listed": True})
-        for _ in range(rng.choice([0, 0, 1, 2, 3])):
-            if listed_objs and rng.random() < 0.5:
-                items.append({"delay": rng.choice(DELAYS), "type": rng.choice(["MODIFIED", "MODIFIED", "DELETED"]),
-                              "uid": rng.choice(listed_objs)})
-            else:
-                uid += 1
-                u = f"{k['name']}-{uid}"
-                listed_objs.append(u)
-                index_delay[u] = rng.choice(DELAYS)
-                items.append({"delay": rng.choice(DELAYS), "type": "ADDED", "uid": u})
-        if rng.random() < 0.2:          # the watch is restarted (410 Gone): listing again, LISTED again
-            for u in listed_objs[:2]:
-                items.append({"delay": rng.choice(DELAYS), "type": None, "uid": u})
-            items.append({"delay": rng.choice(DELAYS), "listed": True})
-        streams[k["name"]] = items
-    late = None
-    if rng.random() < 0.3:
-        items = []
-        for _ in range(rng.choice([0, 1, 2])):
-            uid += 1
-            u = f"{LATE_KIND}-{uid}"
-            items.append({"delay": rng.choice(DELAYS), "type": None, "uid": u})
-            index_delay[u] = rng.choice(DELAYS)
-        items.append({"delay": rng.choice(DELAYS), "listed": True})
-        streams[LATE_KIND] = items
-        late = {"delay": rng.choice([1 / 64, 1 / 4, 1.0, 3.0]),
-                "kinds": [{"name": LATE_KIND, "indexed": rng.random() < 0.8}]}
+    counter = [0]
+    streams: dict[str, list] = {}
+    die_ok = rng.random() < 0.12          # some runs have a watcher that ends (404) — N1
+    for r in resources:
+        for ns in namespaces:
+            streams[_wname(r["name"], ns)] = _gen_stream(rng, _wname(r["name"], ns), index_delay, counter,
+                                                         allow_die=die_ok and r["indexed"])
+    revisions: list[dict] = []
+    if rng.random() < 0.3:                # discovered later: a resource (cluster) or a namespace (namespaced)
+        rev: dict[str, Any] = {"delay": rng.choice([1 / 64, 1 / 4, 1.0, 3.0])}
+        if mode == "cluster":
+            rev["add_resource"] = {"name": LATE_KIND, "indexed": rng.random() < 0.8}
+            new_w = [_wname(LATE_KIND, None)]
+        else:
+            rev["add_namespace"] = "ns9"
+            new_w = [_wname(r["name"], "ns9") for r in resources]
+        for w in new_w:
+            streams[w] = _gen_stream(rng, w, index_delay, counter, allow_die=False)
+        revisions.append(rev)
+    if mode == "namespaced" and len(namespaces) > 1 and rng.random() < 0.1:
+        revisions.append({"delay": rng.choice([0, 1 / 64, 1 / 4]), "drop_namespace": namespaces[-1]})   # deleted during/after listing
+    if die_ok or rng.random() < 0.1:
+        revisions.append({"delay": rng.choice([1 / 4, 1.0, 3.0])})          # any later revision: dead watchers are respawned
+    revisions.sort(key=lambda r: r["delay"])
     filter_raises = []
     if rng.random() < 0.06 and index_delay:
         filter_raises = [rng.choice(sorted(index_delay))]      # the when= filter raises for this object
-    return {"kind": "gate", "kinds": kinds, "late": late, "streams": streams, "index_delay": index_delay,
-            "filter_raises": filter_raises,
-            "toggle_delay": [rng.choice([0, 0, 0, 1 / 64, 1 / 16, 1 / 4]) for _ in range(len(kinds) + 1)],
+    return {"kind": "gate", "mode": mode, "resources": resources, "namespaces": namespaces, "revisions": revisions,
+            "streams": streams, "streams_again": {}, "index_delay": index_delay, "filter_raises": filter_raises,
+            "toggle_delay": [rng.choice([0, 0, 0, 1 / 64, 1 / 16, 1 / 4]) for _ in range(8)],
             "obj_toggle_delay": rng.choice([0, 0, 0, 1 / 64, 1 / 16, 1 / 4]),
             "idle_timeout": rng.choice([5.0, 5.0, 0.25, 1 / 16]),
             "handler_delay": rng.choice([0, 0, 1 / 64, 1 / 4])}
@@ -576,32 +647,37 @@ def gen_gate_case(rng: random.Random) -> dict:
 async def run_gate_case(case: dict) -> dict:
     import kopf
     from kopf._cogs.aiokits import aiotoggles
-    from kopf._cogs.clients import watching
+    from kopf._cogs.clients import errors, watching
     from kopf._cogs.configs import configuration
     from kopf._cogs.structs import ephemera, references
     from kopf._core.actions import lifecycles
-    from kopf._core.engines import indexing
+    from kopf._core.engines import indexing, peering
     from kopf._core.intents import registries
     from kopf._core.reactor import inventory, orchestration, processing, queueing
+    import itertools
 
     labels: list[list] = []          # the label trace for the Lean LTS, each with a snapshot
     obslog: list[tuple] = []         # implementation-level observations for the oracle
-    late = case.get("late") or None
-    all_kinds = case["kinds"] + (late["kinds"] if late else [])
-    kinds = [k["name"] for k in all_kinds]
-    first_kinds = [k["name"] for k in case["kinds"]]
-    is_indexed = {k["name"]: k["indexed"] for k in all_kinds}
-    batch: list[str] = []            # the kinds the running spawn_missing_watchers call is to spawn
-    spawned_kinds: set[str] = set()
-    resources = {k: references.Resource(GROUP, VERSION, k, namespaced=False) for k in kinds}
-    by_resource = {r: k for k, r in resources.items()}
+    namespaced = case["mode"] == "namespaced"
+    res_defs = list(case["resources"]) + [rv["add_resource"] for rv in case["revisions"] if "add_resource" in rv]
+    is_indexed = {r["name"]: r["indexed"] for r in res_defs}
+    resources = {r["name"]: references.Resource(GROUP, VERSION, r["name"], namespaced=namespaced) for r in res_defs}
+    plural_of = {r: k for k, r in resources.items()}
+
+    def wname(resource: Any, ns: Any) -> str:
+        return _wname(plural_of[resource], ns)
+
     cur_obj: "dict[asyncio.Task, tuple[str, str]]" = {}
     ungated: "set[asyncio.Task]" = set()
     crashed: list[str] = []
     watcher_of: "dict[asyncio.Task, str]" = {}
     idle: set[tuple[str, str]] = set()
     pending_listed: dict[str, bool] = {}
+    incarnation: dict[str, int] = {}
     toggle_delays = list(case["toggle_delay"])
+    state = {"closing": False}
+    insights = references.Insights()
+    box: dict[str, Any] = {}
 
     class LoggedToggleSet(aiotoggles.ToggleSet):
         def snap(self) -> dict:
@@ -617,24 +693,34 @@ async def run_gate_case(case: dict) -> dict:
             return res
 
         async def make_toggle(self, *a: Any, name: str | None = None, **kw: Any) -> aiotoggles.Toggle:
-            if (name or "").startswith("kex"):
+            if name == "orchestration blocker":
+                t = await super().make_toggle(*a, name=name, **kw)
+                # what this spawn_missing_watchers call is going to spawn, in its own iteration order
+                ens = box["ensemble"]
+                todo: list[list] = []
+                for resource, ns in itertools.product(insights.watched_resources, insights.namespaces):
+                    ns = ns if resource.namespaced else None
+                    k = wname(resource, ns)
+                    if orchestration.EnsembleKey(resource=resource, namespace=ns) not in ens.watcher_tasks \
+                            and k not in [x[0] for x in todo]:
+                        todo.append([k, resource in insights.indexed_resources])
+                labels.append(["spawnBegin", todo, self.snap()])
+                return t
+            if "@" in (name or "") and not (name or "").startswith("("):
                 d = toggle_delays.pop(0) if toggle_delays else 0
                 if d:
                     await asyncio.sleep(d)      # an await point that suspends (as lock contention would)
-            elif name != "orchestration blocker" and case.get("obj_toggle_delay"):
+            elif case.get("obj_toggle_delay"):
                 await asyncio.sleep(case["obj_toggle_delay"])   # the gap between is_on() and adding the toggle
-            t = await super().make_toggle(*a, name=name, **kw)
-            if name == "orchestration blocker":
-                labels.append(["spawnBegin", [[k, is_indexed[k]] for k in batch if k not in spawned_kinds], self.snap()])
-            return t
+            return await super().make_toggle(*a, name=name, **kw)
 
         async def drop_toggle(self, toggle: aiotoggles.Toggle) -> None:
             await super().drop_toggle(toggle)
             name = toggle.name or ""
             if name == "orchestration blocker":
                 labels.append(["spawnEnd", self.snap()])
-            elif name.startswith("kex"):                           # f"{resource}@{namespace}"
-                k = name.split("@")[0].split(".")[0]
+            elif not name.startswith("("):                          # f"{resource}@{namespace}"
+                k = watcher_of.get(asyncio.current_task())
                 pending_listed[k] = False
                 labels.append(["listed", k, self.snap()])
             else:                                                   # a per-object toggle, by its worker
@@ -642,12 +728,12 @@ async def run_gate_case(case: dict) -> dict:
                 if ro is not None:
                     labels.append(["drop", ro[0], ro[1], self.snap()])
 
-        async def wait_for(self, state: bool) -> None:
+        async def wait_for(self, state_: bool) -> None:
             ro = cur_obj.get(asyncio.current_task())
             if ro is not None and not _dropped_label(labels, ro):
                 # the worker had no own toggle (plain kind): the drop step was a no-op
                 labels.append(["drop", ro[0], ro[1], self.snap()])
-            await super().wait_for(state)
+            await super().wait_for(state_)
             if ro is not None:
                 labels.append(["pass", ro[0], ro[1], self.snap()])
 
@@ -665,18 +751,19 @@ async def run_gate_case(case: dict) -> dict:
     # ---- real handlers via the real decorators
     registry = registries.OperatorRegistry()
 
-    async def index_fn(param: str, uid: str, name: str, **_: Any) -> Any:
-        obslog.append(("index-start", param, uid))
+    async def index_fn(param: str, uid: str, name: str, namespace: Any, **_: Any) -> Any:
+        k = _wname(param, namespace)
+        obslog.append(("index-start", k, uid))
         d = case["index_delay"].get(uid, 0)
         if d:
             await asyncio.sleep(d)
-        obslog.append(("index-end", param, uid))
+        obslog.append(("index-end", k, uid))
         return {name: uid}
 
-    async def event_fn(param: str, uid: str, **_: Any) -> None:
-        ro = (param, uid)
-        obslog.append(("handler-start", param, uid))
-        labels.append(["handle", ro[0], ro[1], gate.snap()])
+    async def event_fn(param: str, uid: str, namespace: Any, **_: Any) -> None:
+        k = _wname(param, namespace)
+        obslog.append(("handler-start", k, uid))
+        labels.append(["handle", k, uid, gate.snap()])
         if case.get("handler_delay"):
             await asyncio.sleep(case["handler_delay"])
 
@@ -685,7 +772,7 @@ async def run_gate_case(case: dict) -> dict:
             raise RuntimeError("scripted failure in a when= filter")
         return True
 
-    for k in kinds:
+    for k in resources:
         if is_indexed[k]:
             kopf.index(GROUP, VERSION, k, id=f"idx_{k}", param=k, registry=registry,
                        when=when_fn if case.get("filter_raises") else None)(index_fn)
@@ -713,8 +800,8 @@ async def run_gate_case(case: dict) -> dict:
                 labels.append(["skip", ro[0], ro[1], gate.snap()])
 
     def worker_logged(**kw: Any) -> Any:
-        resource, uid = kw["key"]
-        k = by_resource[resource]
+        _resource, uid = kw["key"]
+        k = watcher_of.get(asyncio.current_task())       # the worker coroutine is created inside its watcher
         gated = kw.get("operator_indexed") is not None
         has_toggle = kw.get("resource_indexed") is not None
         idle.discard((k, str(uid)))
@@ -722,20 +809,32 @@ async def run_gate_case(case: dict) -> dict:
         return real_worker(**kw)
 
     def watcher_logged(**kw: Any) -> Any:
-        k = by_resource[kw["resource"]]
-        spawned_kinds.add(k)
+        k = wname(kw["resource"], kw["namespace"])
+        incarnation[k] = incarnation.get(k, 0) + 1
+        obslog.append(("spawned", k))
         labels.append(["spawn", k, gate.snap()])
 
         async def run() -> None:
             watcher_of[asyncio.current_task()] = k
-            await real_watcher(**kw)
+            try:
+                await real_watcher(**kw)
+            finally:
+                if not state["closing"]:                 # the watcher ended on its own / was cancelled as redundant
+                    for ro in [x for x in idle if x[0] == k]:
+                        idle.discard(ro)
+                    obslog.append(("watcher-ended", k))
+                    labels.append(["die", k, gate.snap()])
         return run()
 
     async def scripted_watch(*, settings: Any, resource: Any, namespace: Any, operator_paused: Any = None, **_: Any):
-        k = by_resource[resource]
-        for item in case["streams"][k]:
+        k = wname(resource, namespace)
+        script = case["streams"].get(k, [{"delay": 0, "listed": True}]) if incarnation.get(k, 1) <= 1 \
+            else case.get("streams_again", {}).get(k, [{"delay": 0, "listed": True}])
+        for item in script:
             if item["delay"]:
                 await asyncio.sleep(item["delay"])
+            if item.get("die"):
+                raise errors.APINotFoundError("scripted: the resource is gone", status=404, headers={})
             if item.get("listed"):
                 obslog.append(("listed-yield", k))
                 pending_listed[k] = True
@@ -746,15 +845,17 @@ async def run_gate_case(case: dict) -> dict:
             else:
                 u = item["uid"]
                 obslog.append(("yield", k, u, item["type"]))
+                meta = {"name": u, "uid": u, "resourceVersion": str(len(obslog))}
+                if namespace is not None:
+                    meta["namespace"] = namespace
                 yield {"type": item["type"], "object": {
-                    "apiVersion": f"{GROUP}/{VERSION}", "kind": k.capitalize(),
-                    "metadata": {"name": u, "uid": u, "resourceVersion": str(len(obslog))}}}
+                    "apiVersion": f"{GROUP}/{VERSION}", "kind": plural_of[resource].capitalize(), "metadata": meta}}
         await asyncio.Event().wait()            # the watch stays open, silent
 
     real_processor = processing.process_resource_event
 
     async def processor(*, resource: Any, raw_event: Any, **kw: Any) -> Any:
-        k = by_resource[resource]
+        k = wname(resource, raw_event["object"]["metadata"].get("namespace"))
         u = str(raw_event["object"]["metadata"]["uid"])
         task = asyncio.current_task()
         cur_obj[task] = (k, u)
@@ -770,18 +871,18 @@ async def run_gate_case(case: dict) -> dict:
                 memories=memories, memobase=ephemera.Memo(), event_queue=asyncio.Queue(),
                 resource=resource, raw_event=raw_event, **kw)
         finally:
-            # ungated workers skip the wait; cycles without a matching handler still reach the handlers' stage
             mine = [l for l in labels[started:] if len(l) > 2 and l[1] == k and l[2] == u]
             names = [l[0] for l in mine]
-            if "index" not in names and sys.exc_info()[0] is not asyncio.CancelledError:
+            cancelled = sys.exc_info()[0] is asyncio.CancelledError
+            if "index" not in names and not cancelled:
                 # the cycle ended without reaching drop_toggle: index_resource (or something before
                 # it) raised and the throttler swallowed it, or the throttler skipped the cycle
                 labels.append(["indexFail", k, u, gate.snap()])
                 idle.add((k, u))
-            if ("pass" in names or "skip" in names) and "handle" not in names:
+            if ("pass" in names or "skip" in names) and "handle" not in names and not cancelled:
                 labels.append(["handle", k, u, gate.snap()])   # process_resource_causes ran (no handler matched/left)
                 names.append("handle")
-            if "handle" in names:
+            if "handle" in names and not cancelled:
                 labels.append(["finish", k, u, gate.snap()])
                 idle.add((k, u))
             cur_obj.pop(task, None)
@@ -791,32 +892,50 @@ async def run_gate_case(case: dict) -> dict:
     queueing.worker = worker_logged
     queueing.watcher = watcher_logged
     watching.infinite_watch = scripted_watch
-    tasks: list = []
+    ensemble = None
     try:
         paused = aiotoggles.ToggleSet(any)
         ensemble = orchestration.Ensemble(
             operator_indexed=gate, operator_paused=paused,
             peering_missing=await paused.make_toggle(name="peering CRD is missing"))
-        batch[:] = first_kinds
-        await orchestration.spawn_missing_watchers(
-            processor=processor, settings=settings,
-            indexed_resources={resources[k] for k in first_kinds if is_indexed[k]},
-            watched_resources=[resources[k] for k in first_kinds], watched_namespaces=[None], ensemble=ensemble)
-        if late:                                    # a kind is discovered later: the orchestrator adjusts again
-            await asyncio.sleep(late["delay"])
-            batch[:] = kinds
-            await orchestration.spawn_missing_watchers(
-                processor=processor, settings=settings,
-                indexed_resources={resources[k] for k in kinds if is_indexed[k]},
-                watched_resources=[resources[k] for k in kinds], watched_namespaces=[None], ensemble=ensemble)
-        tasks = list(ensemble.watcher_tasks.values())
-        horizon = 2.0 + sum(i["delay"] for its in case["streams"].values() for i in its) \
+        box["ensemble"] = ensemble
+        identity = peering.Identity("verif-c17")
+
+        async def revise() -> None:
+            # one iteration of the real orchestrator (terminate_redundancies, spawn_missing_peerings, spawn_missing_watchers)
+            await orchestration.adjust_tasks(processor=processor, insights=insights, settings=settings,
+                                             identity=identity, ensemble=ensemble)
+
+        insights.watched_resources.update(resources[r["name"]] for r in case["resources"])
+        insights.indexed_resources.update(resources[r["name"]] for r in case["resources"] if r["indexed"])
+        if namespaced:
+            await revise()                                  # resources are known, namespaces not yet: an EMPTY batch
+        insights.namespaces.update(case["namespaces"])
+        await revise()                                      # the start-up batch proper
+        t0 = 0.0
+        for rv in case["revisions"]:
+            await asyncio.sleep(max(0.0, rv["delay"] - t0))
+            t0 = rv["delay"]
+            if "add_resource" in rv:
+                r = rv["add_resource"]
+                insights.watched_resources.add(resources[r["name"]])
+                if r["indexed"]:
+                    insights.indexed_resources.add(resources[r["name"]])
+            if "add_namespace" in rv:
+                insights.namespaces.add(rv["add_namespace"])
+            if "drop_namespace" in rv:
+                insights.namespaces.discard(rv["drop_namespace"])
+            await revise()
+        horizon = 2.0 + max([0.0] + [sum(i["delay"] for i in its) for its in case["streams"].values()]) \
             + sum(case["index_delay"].values()) + sum(case["toggle_delay"]) \
-            + 12 * (case.get("handler_delay") or 0) + 2 * case["idle_timeout"] + 12 * (case.get("obj_toggle_delay") or 0) \
-            + (late["delay"] if late else 0)
+            + 12 * (case.get("handler_delay") or 0) + 2 * case["idle_timeout"] + 12 * (case.get("obj_toggle_delay") or 0)
         await asyncio.sleep(horizon)
-        crashed = [repr(t.exception()) for t in tasks if t.done() and not t.cancelled() and t.exception() is not None]
+        crashed = [repr(t.exception()) for t in ensemble.watcher_tasks.values()
+                   if t.done() and not t.cancelled() and t.exception() is not None
+                   and not isinstance(t.exception(), errors.APINotFoundError)]
     finally:
+        state["closing"] = True
+        tasks = list(ensemble.watcher_tasks.values()) if ensemble is not None else []
         for t in tasks:
             t.cancel()
         if tasks:
@@ -829,21 +948,24 @@ async def run_gate_case(case: dict) -> dict:
 
 
 def oracle_gate(case: dict, obs: dict) -> list[tuple[str, dict, dict]]:
-    """No handler starts before every indexed kind delivered LISTED and every object of those initial
-    listings went through its index function. Reads the stream log, the index-function log and the
-    handler log only."""
+    """The property, strictly: no handler starts while an indexed kind that the operator is already
+    watching has not delivered LISTED, or an object of such a kind's initial listing has not been
+    through its index function. Reads the stream log, the index-function log, the watcher-spawn log and
+    the handler log only. Start-up kinds = the watchers of the resources/namespaces present at the start."""
     fails = []
-    indexed = {k["name"] for k in case["kinds"] if k["indexed"]}      # the start-up batch
-    late_indexed = {k["name"] for k in ((case.get("late") or {}).get("kinds") or []) if k["indexed"]}
+    indexed_res = {r["name"] for r in case["resources"] if r["indexed"]} | \
+                  {rv["add_resource"]["name"] for rv in case["revisions"] if rv.get("add_resource", {}).get("indexed")}
+    startup = {_wname(r["name"], ns) for r in case["resources"] for ns in case["namespaces"]}
+    known: set[str] = set()           # indexed kinds whose watcher has been spawned so far
     listed: set[str] = set()
     initial: set[tuple[str, str]] = set()
     indexed_once: set[tuple[str, str]] = set()
-    started = 0
-    delivered = 0
     for n, o in enumerate(obs["obs"]):
-        if o[0] == "yield":
-            delivered += 1
-            if o[1] in (indexed | late_indexed) and o[1] not in listed and o[3] is None:
+        if o[0] == "spawned":
+            if o[1].split("@")[0] in indexed_res:
+                known.add(o[1])
+        elif o[0] == "yield":
+            if o[1] in known and o[1] not in listed and o[3] is None:
                 initial.add((o[1], o[2]))
             if o[3] == "DELETED":
                 indexed_once.add((o[1], o[2]))      # the object is gone: nothing of it is left to be indexed
@@ -852,23 +974,30 @@ def oracle_gate(case: dict, obs: dict) -> list[tuple[str, dict, dict]]:
         elif o[0] == "index-end":
             indexed_once.add((o[1], o[2]))
         elif o[0] == "handler-start":
-            started += 1
-            # a kind discovered later holds back (only) its own objects until it is listed and indexed
-            own = {o[1]} & late_indexed
-            missing_kinds = sorted((indexed | own) - listed)
-            missing_objs = sorted(x for x in initial - indexed_once if x[0] in indexed | own)
-            # objects of kinds whose listing is still running are covered by `missing_kinds`
+            missing_kinds = sorted(known - listed)
+            missing_objs = sorted(initial - indexed_once)
             if missing_kinds or missing_objs:
+                late_only = all(k not in startup for k in missing_kinds) and all(x[0] not in startup for x in missing_objs)
+                sig = F4_SIG if late_only else \
+                    {"site": "operator_indexed gate", "shape": "handler before the initial index is complete"}
                 fails.append((f"handler for {o[1]}/{o[2]} started (observation #{n}) while kinds {missing_kinds} were not listed "
                               f"and listed objects {missing_objs} were not indexed yet",
-                              {"observation": n, "not_listed": missing_kinds, "not_indexed": missing_objs},
-                              {"site": "operator_indexed gate", "shape": "handler before the initial index is complete"}))
-                break
+                              {"observation": n, "not_listed": missing_kinds, "not_indexed": missing_objs}, sig))
+                if not late_only:
+                    break
     if obs["crashed"]:
         fails.append((f"watcher task crashed: {obs['crashed'][:2]}", {}, {"site": "queueing.watcher", "shape": "crash"}))
     # NB: whether the gate ever opens is liveness, not part of C17 (pure safety): it is only counted
-    # (`gate.opened`), never reported. corpus/C17/F3_gate_toggle_leak.json is a tie scenario for it.
-    return fails
+    # (`gate.opened`), never reported.
+    # deduplicate the by-design reports of one run
+    seen, out = set(), []
+    for f in fails:
+        key = canon(f[2])
+        if key == canon(F4_SIG) and key in seen:
+            continue
+        seen.add(key)
+        out.append(f)
+    return out
 
 
 # =================================================================================================
@@ -984,23 +1113,27 @@ def summarise_gate(results: list[dict], source: str, sm: dict | None = None, wit
         names = [l[0] for l in obs["labels"]]
         key = canon([l[:-1] for l in obs["labels"]])
         handled = names.count("handle")
-        under_blocker = "spawnEnd" in names and any(n == "arrive" for n in names[:names.index("spawnEnd")])
+        under_blocker = _arrival_under_blocker(names)
         reclosed = _reclosed(obs["labels"])
         sm["cases"].append(("g" + _h(key), handled > 0 and "pass" in names))
         if (under_blocker or reclosed) and len(sm["samples"]) < 3:
-            sm["samples"].append({"kinds": case["kinds"], "labels": [l[:-1] for l in obs["labels"][:30]]})
+            sm["samples"].append({"mode": case["mode"], "labels": [l[:-1] for l in obs["labels"][:30]]})
         for nme in names:
             _count(sm, "gate.label", nme)
-        _count(sm, "gate.kinds", len(case["kinds"]))
+        _count(sm, "gate.mode", case["mode"])
+        _count(sm, "gate.watchers", len(case["streams"]))
+        _count(sm, "gate.empty_first_batch", bool(obs["labels"]) and obs["labels"][0][0] == "spawnBegin" and obs["labels"][0][1] == [])
+        _count(sm, "gate.watcher_died", "die" in names)
         _count(sm, "gate.opened", handled > 0)
         _count(sm, "gate.arrival_while_blocker_held", under_blocker)
         _count(sm, "gate.closed_again_after_opening", reclosed)
-        _count(sm, "gate.late_batch", bool(case.get("late")))
+        _count(sm, "gate.later_revisions", len(case["revisions"]))
         _count(sm, "gate.failed_indexing_cycle", "indexFail" in names)
         _count(sm, "gate.source", source)
         sm["traces"] += 1
         for what, detail, sig in r["fails"]:
-            if len(sm["oracle"]) < 12:
+            known = sig == F4_SIG
+            if sum(1 for f in sm["oracle"] if (f[2] == F4_SIG) == known) < 12:
                 sm["oracle"].append((what, {"case": case, "detail": detail, "labels": obs["labels"]}, sig))
         reqs.append(["C17.gate", obs["labels"]])
     if with_lean and reqs:
@@ -1021,13 +1154,25 @@ def summarise_gate(results: list[dict], source: str, sm: dict | None = None, wit
     return sm
 
 
+def _arrival_under_blocker(names: list) -> bool:
+    inside = False
+    for n in names:
+        if n == "spawnBegin":
+            inside = True
+        elif n == "spawnEnd":
+            inside = False
+        elif n == "arrive" and inside:
+            return True
+    return False
+
+
 def _reclosed(labels: list) -> bool:
-    """the set was observed on and later off again (a late object added its toggle)"""
+    """some waiter has passed and later the set is off again (a late toggle / a later batch)"""
     seen_on = False
     for l in labels:
         snap = l[-1]
         if isinstance(snap, dict):
-            if snap["on"] and l[0] not in ("spawnBegin",):
+            if l[0] in ("pass", "skip"):
                 seen_on = True
             elif seen_on and not snap["on"]:
                 return True
